@@ -95,7 +95,10 @@ class BracketValidator:
         else:
             must, may = b["allowed"]
             self.stats["promotions_checked"] += 1
-            if trial_id is None:
+            if trial_id is None and (None in must or None in may):
+                # the rung below was padded with a failed slot that never had a trial (a job the searcher could not fill)
+                self.stats["promotion_jobs_for_slot_without_trial"] = self.stats.get("promotion_jobs_for_slot_without_trial", 0) + 1
+            elif trial_id is None:
                 self._v("promote_exactly_top", "promotion_job_without_trial", {"bracket": bracket_id, "rung": rung_index})
             elif trial_id in b["assigned"]:
                 self._v("rung_filled_by_distinct_trials", "trial_assigned_twice_in_rung", {"trial": trial_id})
